@@ -93,6 +93,70 @@ template<class G> struct GroupRunner {
       T r = TWO(x.minus(y), x.minus(y,ja), x.minus(y,tl::nullopt,jb), x.minus(y,ja,jb));
       o.mat(r.coeffs()); if(a) o.mat(ja); if(b) o.mat(jb); }
     else if(op=="TIsApprox"){ T x=mkT(c.args[0]), y=mkT(c.args[1]); S e=ScalarIO<S>::parse(c.args[2][0]); o.boolean(x.isApprox(y,e)); }
+    // ---- alias forms (property C04): iarg selects the spelling; the result must equal the canonical member's ----
+    else if(op=="AliasGT"){ G X=mkG(c.args[0]); T t=mkT(c.args[1]); int k=std::stoi(c.iarg); G r;
+      switch(k){
+        case 0: r = TWO(X.rplus(t), X.rplus(t,ja), X.rplus(t,G::_,jb), X.rplus(t,ja,jb)); break;
+        case 1: r = TWO(X.plus(t), X.plus(t,ja), X.plus(t,G::_,jb), X.plus(t,ja,jb)); break;
+        case 2: r = X + t; break;
+        case 3: { G Z = X; Z += t; r = Z; } break;
+        case 4: r = TWO(t.rplus(X), t.rplus(X,tl::nullopt,ja), t.rplus(X,jb), t.rplus(X,jb,ja)); break;     // (J wrt t, J wrt X)
+        case 5: r = TWO(t.lplus(X), t.lplus(X,tl::nullopt,ja), t.lplus(X,jb), t.lplus(X,jb,ja)); break;
+        case 6: r = TWO(t.plus(X), t.plus(X,tl::nullopt,ja), t.plus(X,jb), t.plus(X,jb,ja)); break;
+        case 7: r = t + X; break;
+        case 8: r = TWO(manif::rplus(X,t), manif::rplus(X,t,ja), manif::rplus(X,t,G::_,jb), manif::rplus(X,t,ja,jb)); break;
+        case 9: r = TWO(manif::lplus(X,t), manif::lplus(X,t,ja), manif::lplus(X,t,G::_,jb), manif::lplus(X,t,ja,jb)); break;
+        case 10: r = TWO(manif::plus(X,t), manif::plus(X,t,ja), manif::plus(X,t,G::_,jb), manif::plus(X,t,ja,jb)); break;
+        case 11: r = TWO(X.lplus(t), X.lplus(t,ja), X.lplus(t,G::_,jb), X.lplus(t,ja,jb)); break;
+        default: return false; }
+      o.mat(r.coeffs()); if(a) o.mat(ja); if(b) o.mat(jb); }
+    else if(op=="AliasGG"){ G X=mkG(c.args[0]), Y=mkG(c.args[1]); int k=std::stoi(c.iarg);
+      if(k<=4){ T r;
+        switch(k){
+          case 0: r = TWO(X.minus(Y), X.minus(Y,ja), X.minus(Y,G::_,jb), X.minus(Y,ja,jb)); break;
+          case 1: r = X - Y; break;
+          case 2: r = TWO(manif::rminus(X,Y), manif::rminus(X,Y,ja), manif::rminus(X,Y,G::_,jb), manif::rminus(X,Y,ja,jb)); break;
+          case 3: r = TWO(manif::lminus(X,Y), manif::lminus(X,Y,ja), manif::lminus(X,Y,G::_,jb), manif::lminus(X,Y,ja,jb)); break;
+          case 4: r = TWO(manif::minus(X,Y), manif::minus(X,Y,ja), manif::minus(X,Y,G::_,jb), manif::minus(X,Y,ja,jb)); break; }
+        o.mat(r.coeffs()); }
+      else { G r;
+        switch(k){
+          case 5: r = X * Y; break;
+          case 6: { G Z = X; Z *= Y; r = Z; } break;
+          case 7: r = TWO(manif::compose(X,Y), manif::compose(X,Y,ja), manif::compose(X,Y,G::_,jb), manif::compose(X,Y,ja,jb)); break;
+          case 8: r = TWO(manif::between(X,Y), manif::between(X,Y,ja), manif::between(X,Y,G::_,jb), manif::between(X,Y,ja,jb)); break;
+          default: return false; }
+        o.mat(r.coeffs()); }
+      if(a) o.mat(ja); if(b) o.mat(jb); }
+    else if(op=="AliasG"){ G X=mkG(c.args[0]); int k=std::stoi(c.iarg);
+      switch(k){
+        case 0: { G r = a ? manif::inverse(X,ja) : manif::inverse(X); o.mat(r.coeffs()); } break;
+        case 1: { T r = a ? manif::log(X,ja) : manif::log(X); o.mat(r.coeffs()); } break;
+        case 2: { T r = a ? manif::lift(X,ja) : manif::lift(X); o.mat(r.coeffs()); } break;
+        case 3: { T r = a ? X.lift(ja) : X.lift(); o.mat(r.coeffs()); } break;
+        default: return false; }
+      if(a) o.mat(ja); }
+    else if(op=="AliasT"){ T t=mkT(c.args[0]); int k=std::stoi(c.iarg); G r;
+      switch(k){
+        case 0: r = a ? manif::exp(t,ja) : manif::exp(t); break;
+        case 1: r = a ? manif::retract(t,ja) : manif::retract(t); break;
+        case 2: r = a ? t.retract(ja) : t.retract(); break;
+        default: return false; }
+      o.mat(r.coeffs()); if(a) o.mat(ja); }
+    else if(op=="AliasGV"){ G X=mkG(c.args[0]); Vec v=vec_from<S,Vec>(c.args[1]); Jam jm; Jav jv;
+      Vec r = TWO(manif::act(X,v), manif::act(X,v,jm), manif::act(X,v,tl::nullopt,jv), manif::act(X,v,jm,jv));
+      o.mat(r); if(a) o.mat(jm); if(b) o.mat(jv); }
+    else if(op=="AliasId"){ int k=std::stoi(c.iarg); G r=mkG(c.args[0]);
+      { G tmp; tmp.setIdentity(); }          // evaluates Tangent::Zero().exp() now (the statics below were cached earlier)
+      switch(k){
+        case 0: manif::identity(r); break;
+        case 1: r = manif::Identity<G>(); break;
+        case 2: r.setIdentity(); break;
+        case 3: r = G::Identity(); break;
+        default: return false; }
+      o.mat(r.coeffs());
+      T z = mkT(c.args[1]); T z2 = z; manif::zero(z); z2.setZero();
+      o.mat(z.coeffs()); o.mat(z2.coeffs()); o.mat(manif::Zero<T>().coeffs()); o.mat(T::Zero().coeffs()); }
     else return false;
 #undef TWO
     return true;
